@@ -324,6 +324,14 @@ type storeCase struct {
 	// shrink the AHT files): the AHT and the chain then disagree. Not modelled: the case ends at the
 	// first reopening after such an acceptance.
 	foreign bool
+	// reAppended: a delivery was accepted after a discard in this session, i.e. records were appended
+	// behind discarded ones. A reopening then takes the discarded records back and leaves the newer
+	// ones behind the logical end of the tx log; what a later append overwrites of them depends on
+	// byte sizes (an identical re-delivery overwrites its twin exactly and the records behind it come
+	// back at the next reopening). The model drops such left-overs at the next append: the case
+	// ends at the reopening.
+	reAppended     bool
+	batchSinceOpen bool
 }
 
 func (sc *storeCase) find(text string) {
@@ -428,6 +436,9 @@ func (sc *storeCase) deliver(b []byte, skip bool, genuineID uint64, what string)
 			sc.find(fmt.Sprintf("rejected delivery (%s, error %v) changed the replica state %v -> %v; export %x", what, err, before.js(), after.js(), b))
 		}
 	case 0:
+		if sc.discardedSinceOpen {
+			sc.reAppended = true
+		}
 		id := hdr.ID
 		var palh [sha256.Size]byte
 		known := id >= 1 && id <= sc.h.n
@@ -507,15 +518,21 @@ func (sc *storeCase) restart() error {
 		sc.find(fmt.Sprintf("Close+Open changed the committed state of the replica %v -> %v", before.js(), after.js()))
 	}
 	sc.discardedSinceOpen = false
+	sc.batchSinceOpen = false
 	sc.restarts++
 	sc.recheckDiverged() // reopening takes discarded records back
-	if sc.foreign {
+	if sc.foreign || sc.reAppended {
 		sc.lost = true
 	}
 	return nil
 }
 
 func (sc *storeCase) discard(t uint64) {
+	if staleHolder && sc.batchSinceOpen && t == 1 {
+		// concurrent calls used several pooled tx holders; which stale BlRoot a re-precommitted
+		// tx 1 would pick up afterwards depends on the goroutine schedule: keep tx 1
+		t = 2
+	}
 	before := obsOf(sc.replica)
 	var n int
 	cls, err := call(func() error {
@@ -599,6 +616,7 @@ func (sc *storeCase) batch(ids []uint64, skip bool) {
 	sc.add(fmt.Sprintf("SBatch %s %s %d %s", vk.Bool(skip), vk.List(terms), n, after.term(sc.in)),
 		map[string]any{"op": "batch", "ids": ids, "accepted": n, "after": after.js()})
 	sc.stats["batch"]++
+	sc.batchSinceOpen = true
 }
 
 func (sc *storeCase) emit(kind string, nontrivial bool) {
